@@ -174,3 +174,25 @@ Print Assumptions C17_strict_navigation.
 Print Assumptions C17_navigation_identity_order.
 Print Assumptions C17_navigation_executes.
 Print Assumptions C17_variant_code.
+
+(* ---- the canonical prompts against the DECLARATIVE semantics of the patterns ---- *)
+From Scrapli Require Import RegexLemmas PlatformLang.
+
+(* the regex engine is sound and (when its fuel suffices) complete for the declarative matching
+   relation RegexLemmas.matches: its answers are facts about the pattern's language *)
+Theorem C17_regex_engine_decides_language : forall r s,
+  rx_fuel_ok r s = true ->
+  (rx_match r s = true <-> exists st n, (st <= length s)%nat /\ matches r (last_byte_before st s) (skipn st s) n).
+Proof. exact rx_match_iff. Qed.
+
+(* every level of every embedded network platform: its canonical prompt lies in the language of
+   the level's own pattern and of the joined prompt pattern *)
+Theorem C17_canonical_prompts_in_language : forall pd,
+  In pd real_platforms -> pf_driver_type (pd_default pd) = bs "network" ->
+  forall kl, In kl (pf_levels (pd_default pd)) ->
+  exists pr, lookup_bytes (fst kl) (prompts_of pd) = Some pr /\
+             in_language (lv_pattern (snd kl)) pr /\ in_language (pd_joined pd) pr.
+Proof. exact canonical_prompts_in_language. Qed.
+
+Print Assumptions C17_regex_engine_decides_language.
+Print Assumptions C17_canonical_prompts_in_language.
